@@ -559,3 +559,56 @@ def r5_pkg_protocol(ctx, floor=21):
     run.check(order_ok, 'R5', pr.where, pr.qualname, 'self.dp.it = res_iter; yield from self.dp_processor',
               'the upstream streams are not bound to the package wrapper before the package function resumes')
     return steps
+
+
+# ---------------------------------------------------------------------- R1m the interpretation of a link depends on the link alone
+
+def r1m_stateless_dispatch(ctx, rule='R1m'):
+    """How Flow._chain interprets a link (nested flow / processor / row, rows or package function / iterable) is a function of that
+    link.  A module-level container that the dispatch code (with its helpers) both fills and consults - a memo keyed by code object,
+    by class, by name - makes the answer for one link depend on the links that were chained before it, in this or any other Flow of
+    the process: two partials, two callable objects of one class, two lambdas sharing a code object then get one answer."""
+    run, repo = ctx.run, ctx.repo
+    run.rule(rule, 'STATELESS-DISPATCH: the code that decides what a link is reads no module-level mutable container that the library '
+                   'also writes (no memo of earlier decisions): the interpretation of a link depends on the link alone')
+    fl = repo.cls('dataflows.base.flow:Flow')
+    ch = fl.methods.get('_chain')
+    if ch is None:
+        raise AnalysisError('Flow._chain not found')
+    chn = ctx.N(ch)
+    mod = ch.module
+    containers = {}
+    for st in mod.tree.body:
+        if isinstance(st, ast.Assign) and len(st.targets) == 1 and isinstance(st.targets[0], ast.Name):
+            v = st.value
+            if isinstance(v, (ast.Dict, ast.List, ast.Set)) or (isinstance(v, ast.Call) and u(v.func) in (
+                    'dict', 'list', 'set', 'collections.OrderedDict', 'collections.defaultdict', 'weakref.WeakKeyDictionary',
+                    'weakref.WeakValueDictionary', 'OrderedDict', 'defaultdict')):
+                containers[st.targets[0].id] = st
+    written = set()
+    for n in ast.walk(mod.tree):
+        if isinstance(n, ast.Subscript) and isinstance(n.ctx, (ast.Store, ast.Del)) and isinstance(n.value, ast.Name) and n.value.id in containers:
+            written.add(n.value.id)
+        if isinstance(n, ast.Call) and isinstance(n.func, ast.Attribute) and isinstance(n.func.value, ast.Name) and \
+                n.func.value.id in containers and n.func.attr in ('append', 'extend', 'add', 'update', 'setdefault', 'insert', 'pop', 'clear'):
+            written.add(n.func.value.id)
+    # also reached through functools.lru_cache / functools.cache on a helper the dispatch calls
+    cached = []
+    for c in ast.walk(chn.node):
+        if isinstance(c, ast.Call):
+            for t in ctx.res.resolve_call(c):
+                if isinstance(t, FuncInfo) and not isinstance(t.node, ast.Lambda) and t.module is mod and \
+                        any('cache' in u(d) for d in t.node.decorator_list):
+                    cached.append((c, t))
+    bad = [n for n in ast.walk(chn.node) if isinstance(n, ast.Name) and isinstance(n.ctx, ast.Load) and n.id in written]
+    for n in bad[:1]:
+        run.fail(rule, where(repo, n), ch.qualname, 'dispatch consults %s' % n.id,
+                 'the dispatch of a link consults the module-level container %s, which the library fills while chaining: what a link is '
+                 'taken for depends on the links chained before it (a memo keyed by code object / class answers for every partial, '
+                 'every instance of a class, every lambda sharing a code object alike)' % n.id)
+    for c, t in cached[:1]:
+        run.fail(rule, where(repo, c), ch.qualname, 'dispatch through cached %s' % t.qualname,
+                 'the dispatch of a link goes through a memoised helper (%s): links that compare equal as cache keys get one answer' % t.qualname)
+    if not bad and not cached:
+        run.ok(rule, ch.where, ch.qualname, 'no module-level container of %s is consulted (%d defined, %d written)'
+               % (mod.name, len(containers), len(written)))
